@@ -721,8 +721,37 @@ r_value := enum.value(n, t)
 		if err != nil {
 			return err
 		}
+		ms := tengo.NewScript([]byte(`enum := import("enum")
+pred := func(k, v) { return v > t }
+r_all := enum.all(x, pred)
+r_any := enum.any(x, pred)
+r_filter := enum.filter(x, pred)
+r_find := enum.find(x, pred)
+r_find_key := enum.find_key(x, pred)
+r_chunk := enum.chunk(x, 2)
+r_map := enum.map(x, func(k, v) { return k + ":" + v })
+r_at := [enum.at(x, "a"), enum.at(x, "b"), enum.at(x, "c"), enum.at(x, 0), enum.at(x, undefined)]
+cnt := 0
+r_each := enum.each(x, func(k, v) { cnt += v + 1 })
+r_other := [enum.all(5, pred), enum.any("s", pred), enum.map(undefined, pred), enum.at(5, 0), enum.each(1.5, pred), enum.find(true, pred), enum.find_key('c', pred), enum.filter({}, pred), enum.chunk([1], 0)]
+`))
+		ms.SetImports(stdlib.GetModuleMap("enum"))
+		_ = ms.Add("x", map[string]interface{}{})
+		_ = ms.Add("t", 0)
+		mcomp, err := ms.Compile()
+		if err != nil {
+			return err
+		}
 		return runCases(300*time.Second, func(raw []byte) map[string]interface{} {
 			var in struct {
+				Maps []struct {
+					KV  [][]interface{} `json:"kv"`
+					T   int64           `json:"t"`
+					All bool            `json:"all"`
+					Any bool            `json:"any"`
+					Sat []string        `json:"sat"`
+					At  [][]interface{} `json:"at"`
+				} `json:"maps"`
 				Batch []struct {
 					X      []int64   `json:"x"`
 					Pred   string    `json:"pred"`
@@ -749,6 +778,113 @@ r_value := enum.value(n, t)
 					a.Value = append(a.Value, &tengo.Int{Value: v})
 				}
 				return a
+			}
+			for _, c := range in.Maps {
+				for _, form := range []string{"map", "immutable-map"} {
+					kv := map[string]tengo.Object{}
+					for _, p := range c.KV {
+						kv[p[0].(string)] = &tengo.Int{Value: toInt64(p[1])}
+					}
+					var x tengo.Object = &tengo.Map{Value: kv}
+					if form == "immutable-map" {
+						x = &tengo.ImmutableMap{Value: kv}
+					}
+					cl := mcomp.Clone()
+					_ = cl.Set("x", x)
+					_ = cl.Set("t", c.T)
+					ctx, cancel := context.WithTimeout(context.Background(), 10*time.Second)
+					err := cl.RunContext(ctx)
+					cancel()
+					bad := func(fn, what string) {
+						k := "enum:" + fn + ":" + form
+						byKey[k]++
+						if byKey[k] <= 2 {
+							mism = append(mism, libMismatch{Key: k, What: fmt.Sprintf("enum.%s on %s %v (pred value > %d): %s", fn, form, c.KV, c.T, what), Fn: "enum." + fn})
+						}
+					}
+					if err != nil {
+						bad("run", err.Error())
+						continue
+					}
+					get := func(name string) tengo.Object { return cl.Get(name).Object() }
+					chk := func(fn string, want tengo.Object) {
+						stats["compared"]++
+						if got := get("r_" + fn); !sameObj(want, got) {
+							bad(fn, fmt.Sprintf("returned %s %s, the specification gives %s %s", got.TypeName(), got.String(), want.TypeName(), want.String()))
+						}
+					}
+					chk("all", mkBool(c.All).Obj)
+					chk("any", mkBool(c.Any).Obj)
+					chk("filter", tengo.UndefinedValue)
+					chk("chunk", tengo.UndefinedValue)
+					sat := map[string]bool{}
+					for _, k := range c.Sat {
+						sat[k] = true
+					}
+					stats["compared"] += 2
+					fk, fv := get("r_find_key"), get("r_find")
+					if len(sat) == 0 {
+						if fk != tengo.UndefinedValue || fv != tengo.UndefinedValue {
+							bad("find", fmt.Sprintf("no entry satisfies the predicate, find gave %s, find_key %s", fv.String(), fk.String()))
+						}
+					} else {
+						ks, ok := fk.(*tengo.String)
+						if !ok || !sat[ks.Value] {
+							bad("find_key", fmt.Sprintf("returned %s, the satisfying keys are %v", fk.String(), c.Sat))
+						}
+						okv := false
+						for k := range sat {
+							if sameObj(kv[k], fv) {
+								okv = true
+							}
+						}
+						if !okv {
+							bad("find", fmt.Sprintf("returned %s, not the value of a satisfying key %v", fv.String(), c.Sat))
+						}
+					}
+					// map: a permutation of the images
+					var want []string
+					for k, v := range kv {
+						want = append(want, k+":"+v.String())
+					}
+					sort.Strings(want)
+					var gotl []string
+					if a, ok := get("r_map").(*tengo.Array); ok {
+						for _, e := range a.Value {
+							gotl = append(gotl, argS(e))
+						}
+					}
+					sort.Strings(gotl)
+					stats["compared"]++
+					if strings.Join(want, ",") != strings.Join(gotl, ",") {
+						bad("map", fmt.Sprintf("returned %s, the images are %v", get("r_map").String(), want))
+					}
+					at := &tengo.Array{Value: []tengo.Object{}}
+					for _, key := range []string{"a", "b", "c"} {
+						var e tengo.Object = tengo.UndefinedValue
+						for _, p := range c.At {
+							if p[0].(string) == key && toInt64(p[1]) >= 0 {
+								e = &tengo.Int{Value: toInt64(p[1])}
+							}
+						}
+						at.Value = append(at.Value, e)
+					}
+					at.Value = append(at.Value, tengo.UndefinedValue, tengo.UndefinedValue)
+					chk("at", at)
+					var cnt int64
+					for _, v := range kv {
+						cnt += v.(*tengo.Int).Value + 1
+					}
+					stats["compared"]++
+					if got := get("cnt"); !sameObj(&tengo.Int{Value: cnt}, got) {
+						bad("each", fmt.Sprintf("visited values sum to %s, the specification gives %d", got.String(), cnt))
+					}
+					other := &tengo.Array{Value: []tengo.Object{}}
+					for i := 0; i < 9; i++ {
+						other.Value = append(other.Value, tengo.UndefinedValue)
+					}
+					chk("other", other)
+				}
 			}
 			for _, c := range in.Batch {
 				for _, form := range []string{"array", "immutable"} {
